@@ -58,13 +58,20 @@ def classify(sn, client, leaked=()):
             cl["reserved"] += 1
         elif s["ref_count"] > 0:
             cl["held"] += 1
+        elif (s["id"] % 2 == 1) == client and not s["is_counted"] and not s["is_pending_reset_expiration"] and (
+                s["is_pending_open"] or s["is_pending_send"] or s["is_pending_send_capacity"]):
+            # a locally initiated stream (request / push) the application queued and then abandoned before it was counted: created by
+            # the application, one per send_request / push_request call; not something the peer can grow (app-attributable)
+            cl["held"] += 1
         elif s["is_counted"]:
             cl["counted"] += 1
         elif s["is_pending_reset_expiration"]:
             cl["expiring"] += 1
         elif s["is_pending_accept"] and not client:
             cl["unaccepted"] += 1
-        elif s["is_pending_accept"] and client:
+        elif client and s["id"] % 2 == 0:
+            # a promised stream that never became active (uncounted, no handle): still queued on its parent, or already being
+            # cancelled because the parent's handle went away (RST_STREAM owed) - KF-C18-1 either way: their number has no cap
             cl["reserved"] += 1
         elif s["is_pending_send"] or s["is_pending_send_capacity"] or s["is_pending_open"] or s["is_pending_window_update"]:
             cl["queued"] += 1
